@@ -227,6 +227,12 @@ func zzH_C10_dirDelete() {
 	if had && !t.transferConfig.Overwrite {
 		top = "d.0" // received next to the directory that was already there
 	}
+	// a further top-level file whose name merely begins with the received directory's name (not inside it)
+	sib := ""
+	if verifNondetBool() {
+		sib = top + "2"
+		zzRecvEntry10(t, root, []string{sib}, false)
+	}
 	sink.data = nil
 	del := verifNondetBool()
 	t.stopTransferringFiles(del)
@@ -244,8 +250,14 @@ func zzH_C10_dirDelete() {
 		}
 		verifAssert(verifFSKind(root+"/"+top+"/x") == 0, "stop-and-delete left a file this transfer created")
 		verifAssert(verifFSKind(root+"/"+top+"/e/y") == 0, "stop-and-delete left a nested file this transfer created")
+		if sib != "" {
+			verifAssert(verifFSKind(root+"/"+sib) == 0, "stop-and-delete left a file next to the received directory")
+		}
 		verifReach("dir-deleted")
 	} else {
+		if sib != "" {
+			verifAssert(verifFSKind(root+"/"+sib) == 1, "plain stop removed a completed file next to the received directory")
+		}
 		verifAssert(verifFSKind(root+"/"+top) == 2, "plain stop removed a received directory")
 		if n >= 2 {
 			verifAssert(verifFSKind(root+"/"+top+"/x") == 1, "plain stop removed a completed file")
